@@ -15,6 +15,31 @@ CHECKS = {
             "All reachable canonical database images of the unique/set index scenario are enumerated to closure; on every transition the outcome class and the complete bucket image are compared with a reference model, so index buckets are checked byte-for-byte against entity-derived state.",
             "Tiny universes (2-3 ids, 3 names, 3 aliases, 4 role sets); bbolt atomicity trusted; equal masked dumps are merged (same futures).",
             "DESIGN.md §4 C03"),
+    "C04": ("model_checking", E1,
+            "explicit-state BFS to closure per foreign-key wiring (7 wirings + self-referential), plain and hostile id strings; reference model comparison of complete image, back-reference reads and error classes",
+            "Every reachable state of each wiring is enumerated to closure; restrict/cascade outcome, surviving entities and back-reference buckets are compared with a reference model on every transition, repeated with ids containing quotes, backslashes, keywords and control characters.",
+            "2 targets x 2 referrers (3 self-referential entities); cascade over a reference cycle is probed in a child process (known finding) and not executed in-process.",
+            "DESIGN.md §4 C04"),
+    "C05": ("model_checking", E1,
+            "explicit-state BFS to closure over link / ref-counted link operations from both sides + exhaustive (current set x requested list) enumeration for SetLinks",
+            "All reachable link states (symmetric and ref-counted) are enumerated to closure with every operation issued from either side; both directions and both counts are compared byte-for-byte with the model; SetLinks is checked for every current set over 4 ids and every request list up to length 3/4 including duplicates, unsorted input and a missing id.",
+            "2x2 (2x3) entities, counts bounded by 2/3 (Increment above the bound is skipped on both sides), negative counts outside the property's domain.",
+            "DESIGN.md §4 C05"),
+    "C06": ("model_checking", E1,
+            "explicit-state BFS (depth-bounded) over the kitchen-sink schema; every reachable state x every delete; ValidateDeleted + byte scan + complete image vs reference model",
+            "Histories up to the depth bound over a schema combining every index/constraint/link type and both child-store kinds are enumerated; after every delete the repository's own oracle, a byte-level search for the id and the full reference image (which cannot contain the id) are checked; re-creation is part of the alphabet so 'as if never existed' is the model comparison on successor states.",
+            "Depth bound 5 (quick) / transition and state caps (thorough) - not a closure; reported in evidence as exhaustive:false with the depth completed.",
+            "DESIGN.md §4 C06"),
+    "C15": ("model_checking", E1,
+            "explicit-state BFS to closure over operations routed through parent, plain child and extended child store; reads through all three stores vs reference model",
+            "All reachable states of a parent store with a plain and an extended child store are enumerated to closure; on every transition the complete image, FindById/LoadById/QueryIds (both scanners)/IterateIds/IterateValidIds through each store and the parent's index reads are compared with the model.",
+            "2 entity ids; promoting an existing parent through child Create and deleting a plain parent through the plain child store are unspecified and excluded.",
+            "DESIGN.md §4 C15"),
+    "C16": ("model_checking", E1,
+            "explicit-state BFS to closure over {create,update,patch,delete} x {system,ordinary context} x flag, 1-2 operations per transaction",
+            "All reachable states and all one- and two-operation transactions mixing system and ordinary contexts are enumerated; allowed/refused, unchanged-after-refusal, immutability of the flag and read-back are compared with the model.",
+            "2 ids, 2 names (a unique index supplies a second rejection cause).",
+            "DESIGN.md §4 C16"),
 }
 
 NOT_BUILT = {}
